@@ -121,7 +121,7 @@ Theorem C25_registry_only_from_opens :
   (forall aead_seal aead_open utf8_replace codec ws s o s' k i c sid exp n txt,
      step aead_seal aead_open utf8_replace codec ws s o = (s', EvMinted k i c sid exp n (Some txt)) ->
      exists w sb, nth_error ws k = Some w /\ utf8_encode (w_id w) = Some sb /\ blen sb <= MAX_SERVER_ID_LEN /\
-       txt = b64u_encode (seal_bytes aead_seal (session_plain c sb sid (Z.to_N exp)) (w_key w) (compute_aad i) n) /\
+       txt = b64u_encode (seal_bytes aead_seal (session_plain c sb sid (tok_secs exp)) (w_key w) (compute_aad i) n) /\
        reg_lookup (regs_of s' k) sid = Some (exp, principal_key i)).
 Proof. split; [exact registry_only_from_opens|exact minted_text_is_envelope]. Qed.
 Print Assumptions C25_registry_only_from_opens.
@@ -155,7 +155,7 @@ Definition ex_tbl : list aead_row := [(ex_key, compute_aad (ident_of ex_alice), 
 Definition ex_txt : list N := b64u_encode (1 :: ex_nonce ++ ex_body).
 Definition ex_reg : registry := [(ex_sid, (1100%Z, principal_key (ident_of ex_alice)))].
 Definition ex_run (wid : list N) (reg : registry) (now : Z) (i : option (bytes * bytes)) (st : cstep) :=
-  run_case ex_tbl [] AsciiReplace (((ex_key, wid), reg), now, i, st).
+  run_case ex_tbl [] AsciiReplace ((((ex_key, wid), 300000%Z), reg), now, i, st).
 
 Example C25_ex_resumed : ex_run ex_wid ex_reg 1050 ex_alice (SCall (Some ex_txt) false) = ([1;0;1;0] ++ ex_sid, ex_reg).
 Proof. vm_compute; reflexivity. Qed.
@@ -181,6 +181,12 @@ Example C25_ex_close_session : ex_run ex_wid ex_reg 1050 ex_alice (SCall (Some e
 Proof. vm_compute; reflexivity. Qed.
 Example C25_ex_no_header : ex_run ex_wid ex_reg 1050 ex_alice (SCall None false) = ([1;0;1;0], ex_reg).
 Proof. vm_compute; reflexivity. Qed.
+(* per-call TTLs: None takes the worker default, 0 and negative values are kept (the session is expired at creation) *)
+Example C25_ex_open_ttls :
+  snd (ex_run ex_wid [] 1000 ex_alice (SOpen None ex_sid ex_nonce)) = [(ex_sid, (301000%Z, principal_key (ident_of ex_alice)))] /\
+  snd (ex_run ex_wid [] 1000 ex_alice (SOpen (Some 0%Z) ex_sid ex_nonce)) = [(ex_sid, (1000%Z, principal_key (ident_of ex_alice)))] /\
+  snd (ex_run ex_wid [] 1000 ex_alice (SOpen (Some (-5)%Z) ex_sid ex_nonce)) = [(ex_sid, (995%Z, principal_key (ident_of ex_alice)))].
+Proof. vm_compute. repeat split; reflexivity. Qed.
 (* the premises are satisfiable: the example mint is well-formed, the example identities are in the quantifier *)
 Example C25_ex_wf :
   mint_wf {| m_worker := 0; m_ident := ident_of ex_alice; m_created := 1000; m_sid := ex_sid; m_exp := 1100; m_nonce := ex_nonce |}
